@@ -253,6 +253,13 @@ func ExtProbe(c *core.Ctx) {
 	}
 	cfg.Fsck = true
 	ops := []extOp{{A: "Mkdir", P: "d"}, {A: "Create", P: "d/a"}, {A: "WriteAt", P: "d/a", Off: 0, Len: 5000, Tag: 1}, {A: "Remove", P: "d/a"}, {A: "Debugfs"}}
+	if o := os.Getenv("VERIF_EXTOPS"); o != "" {
+		ops = nil
+		if err := jsonUnmarshal(o, &ops); err != nil {
+			c.Broken("VERIF_EXTOPS: %v", err)
+			return
+		}
+	}
 	evs, err := extExec(cfg, ops)
 	if err != nil {
 		fmt.Println("refused:", err)
